@@ -16,7 +16,7 @@
     property's domain -- including the access mode shared by all handles of a vgroup (nattach, MAX of the requested
     modes) and the write-back / reload of records.
     NOT proved (correspondence only): the element store under Vdetach (a finite map here), Vdata record persistence. *)
-From Coq Require Import String ZArith List Bool Lia.
+From Coq Require Import String ZArith List Bool Lia Sorted.
 Require Import H4.gen.Gen_VG H4.VGraphSpec H4.VGModel H4.VGProofs H4.VGSimProofs.
 Import ListNotations.
 Local Open Scope Z_scope.
@@ -85,6 +85,73 @@ Print Assumptions vg_step_refines.
 Theorem vg_graph_refines_spec : forall ops, traces_agree (s_trace init ops) (m_trace minit ops).
 Proof. exact (fun ops => graph_refines_from ops minit Inv_init). Qed.
 Print Assumptions vg_graph_refines_spec.
+
+(** (8) the element under a vgroup record.  Hputelement sizes only a new (or invalidated) element ... *)
+Theorem hputelement_in_place : forall o b, (length b <= length o)%nat ->
+  exists e, Hputelement (Some o) b = Some e /\ length e = length o /\ firstn (length b) e = b /\
+            skipn (length b) e = skipn (length b) o.
+Proof. exact put_in_place. Qed.
+Print Assumptions hputelement_in_place.
+
+Theorem hputelement_longer_fails : forall o b, (length o < length b)%nat -> Hputelement (Some o) b = None.
+Proof. exact put_longer_fails. Qed.
+Print Assumptions hputelement_longer_fails.
+
+(** ... the size vpackvg reports is the length of what it wrote, for every storable vgroup ... *)
+Theorem vpackvg_reports_length : forall g, WFpack g -> length (snd (vpackvg g)) = packed_size g.
+Proof. exact vpackvg_length. Qed.
+Print Assumptions vpackvg_reports_length.
+
+(** ... so Vdetach of a marked vgroup -- whatever the element held before: nothing, a shorter or a longer record --
+    cannot fail and leaves exactly the packed record, which Load_vfile decodes to the same vgroup *)
+Theorem detach_leaves_exact_record : forall file g r, WFpack g -> oref g = r -> StronglySorted Z.lt (keys file) ->
+  marked g = true -> (new_vg g = true -> tget r file = None) ->
+  write_fails file g = false /\
+  tget r (fst (write_back file g)) = Some (snd (vpackvg g)) /\
+  length (snd (vpackvg g)) = packed_size g /\
+  vunpackvg r (snd (vpackvg g)) = Some (reloaded g) /\
+  core (reloaded g) = core g /\
+  (forall k, k <> r -> tget k (fst (write_back file g)) = tget k file).
+Proof. exact detach_exact_lemma. Qed.
+Print Assumptions detach_leaves_exact_record.
+
+(** the same along EVERY history inside the domain: each vgroup not being edited is in the file as exactly the packed
+    record of a storable vgroup with its name, class and members, and reloading gives them back.  (The side
+    condition of the previous theorem -- a vgroup created in this session has no element yet -- is part of the
+    invariant.) *)
+Theorem vg_store_exact_on_histories : forall ops, in_domain (s_trace init ops) ->
+  forall k g, tget k (m_vg (m_final minit ops)) = Some g -> marked g = false ->
+  exists g0, WFpack g0 /\ oref g0 = k /\ core g0 = core g /\
+             tget k (m_file (m_final minit ops)) = Some (snd (vpackvg g0)) /\
+             length (snd (vpackvg g0)) = packed_size g0 /\
+             vunpackvg k (snd (vpackvg g0)) = Some (reloaded g0) /\ core (reloaded g0) = core g.
+Proof. exact store_exact_on_histories. Qed.
+Print Assumptions vg_store_exact_on_histories.
+
+(** without the invalidation (HDreuse_tagref) the property would fail: the faithful in-place write of a record one
+    byte shorter keeps the old length and the vgroup does not decode *)
+Theorem in_place_write_refuted :
+  exists g0 g, WFpack g0 /\ WFpack g /\ oref g0 = oref g /\
+    match Hputelement (Some (snd (vpackvg g0))) (snd (vpackvg g)) with
+    | Some e => length e = length (snd (vpackvg g0)) /\ vunpackvg (oref g) e <> Some (reloaded g)
+    | None => False
+    end.
+Proof. exact in_place_write_refuted_lemma. Qed.
+Print Assumptions in_place_write_refuted.
+
+(** the statements of Vdetach / Hstartwrite / Hwrite / VPgetinfo / vpackvg this rests on *)
+Theorem source_store_pinned :
+  vdetach_reuse =
+    "if(!vg->new_vg){switch(HDcheck_tagref(vg->f,DFTAG_VG,vg->oref)){case0:break;case1:if(HDreuse_tagref(vg->f,DFTAG_VG,vg->oref)==FAIL)HGOTO_ERROR(DFE_INTERNAL,FAIL);break;"%string /\
+  vdetach_put =
+    "if(Hputelement(vg->f,DFTAG_VG,vg->oref,Vgbuf,vgpacksize)==FAIL){HERROR(DFE_WRITEERROR);ret_value=FAIL;}else{vg->marked=0;vg->new_vg=0;}"%string /\
+  hstartwrite_setlength = "if(access_rec->new_elem&&(Hsetlength(ret,length)==FAIL))"%string /\
+  hwrite_bound =
+    "if(length<=0||(!access_rec->appendable&&length+access_rec->posn>data_len))HGOTO_ERROR(DFE_BADSEEK,FAIL);"%string /\
+  vpgetinfo_length = "if((len=Hlength(f,DFTAG_VG,(uint16)ref))==FAIL)"%string /\
+  vpackvg_size = "*size=(int32)(bb-buf)+1;"%string.
+Proof. exact Layout.source_store_pinned_lemma. Qed.
+Print Assumptions source_store_pinned.
 
 (** (6) tie to the source text: this obligation breaks when a statement of vpackvg / vunpackvg / vinsertpair /
     Vdeletetagref, a constant or the internal class-name table changes in vgp.c *)
@@ -241,3 +308,23 @@ Example ex_class_lookup :
   (vscheckclass t 3 (Some q), vscheckclass t 4 (Some q), vscheckclass t 5 (Some (_HDF_CHK_TBL_CLASS ++ [48]))) =
   (true, false, true) /\ is_prefix _HDF_CHK_TBL_CLASS q = false.
 Proof. vm_compute. split; reflexivity. Qed.
+
+(** the store: a vgroup read from the file whose record shrinks by one byte -- Vdetach still leaves exactly the new
+    record (Hputelement alone, in place, would keep the 29 bytes of the old one) *)
+Definition ex_old : VGROUP := ex_station ex_name_a1.
+Definition ex_new : VGROUP :=
+  set_name (mkVG 9 0 64 (repeat 0 64) (repeat 0 64) (Some ex_name_a1) None 0 0 0 0 [] 3 0 false false true)
+           (set_string ex_name_b).
+Example ex_detach_shrinks :
+  let file := [(9, snd (vpackvg ex_old))] in
+  (length (snd (vpackvg ex_old)), length (snd (vpackvg ex_new))) = (25%nat, 24%nat) /\
+  write_fails file ex_new = false /\
+  tget 9 (fst (write_back file ex_new)) = Some (snd (vpackvg ex_new)) /\
+  match Hputelement (Some (snd (vpackvg ex_old))) (snd (vpackvg ex_new)) with
+  | Some e => length e = 25%nat | None => False end /\
+  Hputelement (Some (snd (vpackvg ex_new))) (snd (vpackvg ex_old)) = None.
+Proof. vm_compute. repeat split. Qed.
+(** the history of ex_hist stays inside the domain, and its final state holds unmarked vgroups *)
+Example ex_hist_in_domain : in_domain (s_trace init ex_hist) /\
+  map (fun e => (fst e, marked (snd e))) (m_vg (m_final minit ex_hist)) = [(2, false); (5, true)].
+Proof. vm_compute. split; [exact I|reflexivity]. Qed.
